@@ -237,7 +237,8 @@ Fixpoint rd_read_data_loop (fuel : nat) t magic (h : handle) (s got : Z) (blocks
         let blk := match blocks with [] => (ARCHIVE_EOF, 0, r_off d) | b :: _ => b end in
         let rest := match blocks with [] => [] | _ :: r => r end in
         bind (rd_block_into t magic h blk) (fun st h1 =>
-          if st =? ARCHIVE_EOF then RRet got h1
+          (* end of data ends the call unless the back end reports a trailing hole through the offset *)
+          if (st =? ARCHIVE_EOF) && (r_off (rd h1) <=? r_out (rd h1)) then RRet got h1
           else if st <? ARCHIVE_OK then RRet st h1
           else if r_off (rd h1) <? r_out (rd h1) then RRet ARCHIVE_RETRY h1
           else let '(h2, s2, g2) := rd_pad_copy h1 s got in rd_read_data_loop k t magic h2 s2 g2 rest)
